@@ -88,7 +88,9 @@ def read_fragment_cgsmiles(cgsmiles_str,
     networkx.Graph
         the graph of the molecular fragment
     """
-    mol_graph = read_cgsmiles(cgsmiles_str)
+    # the graph reader expects the enclosing braces; without them a ring
+    # marker of the %nn form at the very end of the fragment is never closed
+    mol_graph = read_cgsmiles('{' + cgsmiles_str + '}')
     fragnames = nx.get_node_attributes(mol_graph, 'fragname')
     nx.set_node_attributes(mol_graph, fragnames, 'atomname')
     nx.set_node_attributes(mol_graph, bonding_descrpt, 'bonding')
